@@ -41,8 +41,9 @@ COQ_FILES = ["theories/C01/Props.v", "theories/C01/Link.v", "theories/C01/Proofs
 QUICK_N = 300
 THOROUGH_N = 8000
 SHARD = 100
-RULE = ("breaker histories of 20-140 events over 1-3 registry names: Begin(kind in Do/DoWithAcceptable/DoWithFallback/"
-        "DoWithFallbackAcceptable, coin) / End(outcome ok 50%, acceptable err 20%, unacceptable err 20%, panic 10%, with "
+RULE = ("breaker histories of 20-140 events over 1-3 registry names through the public Breaker: Begin(kind in Do/DoWithAcceptable/"
+        "DoWithFallback/DoWithFallbackAcceptable, for the ...Acceptable variants a caller predicate in {nil-or-acceptable-error, "
+        "REJECTS nil, accepts every error, accepts nothing}, coin) / End(outcome ok 50%, acceptable err 20%, unacceptable err 20%, panic 10%, with "
         "failure phases) interleaved across calls, Allow/Accept/Reject, advances in {0,<250ms,k*250ms-1..+1,2.5s,9.75s,"
         "10s-1,10s,10s+1,>10s}; coins uniform, 0, 2^53-1 and the three 53-bit values around the drop ratio computed by the "
         "generator's own simulation; plus the finite sets: gRPC codes 0..16, sqlx {nil,ErrNoRows,ErrTxDone,Canceled,other} "
@@ -51,7 +52,12 @@ RULE = ("breaker histories of 20-140 events over 1-3 registry names: Begin(kind 
         "written, WriteHeader+Write+Flush+Write, Write+Flush+Write, Flush only, panic under RecoverHandler) sustained 200 "
         "requests each through one BreakerHandler with WithCodeResponseWriter.Code probed, server UnaryBreakerInterceptor "
         "(inside UnaryCrashInterceptor) and client BreakerInterceptor with every gRPC code 0..16 returned and panic(string|"
-        "error), 200 calls each; registry stream: 6 cases (thorough 40) x 200 fresh names, G = 2..8 goroutines making "
+        "error), 200 calls each; sqlx call sites (3 of 7 methods per run, all in thorough: ExecCtx PrepareCtx QueryRow[s][Partial]Ctx TransactCtx x "
+        "{ErrNoRows, ErrTxDone, Canceled, other; MySQL 1062/1000 under NewMySQL's option}) and redis call sites (3 of 7: HGet LPop "
+        "ZScore RPop Get Incr ZRank x {ok, cancelled ctx, redis.Nil, WRONGTYPE}) against miniredis, 200 calls each; server "
+        "StreamBreakerInterceptor like the unary one; 12 mixed streams (thorough 150) of 40-160 calls through the client / server "
+        "unary / server stream interceptor with live, expired-deadline and cancelled caller contexts and panics; "
+        "registry stream: 6 cases (thorough 40) x 200 fresh names, G = 2..8 goroutines making "
         "their first use of the name together through Get / Do / DoWithAcceptable with the all-miss interleaving forced "
         "(driver holds the write lock until all are parked in RLock), then 50 failures through the first handle and probes "
         "through the last handle and through Do(name); non-trivial = a history with at least one rejection and "
@@ -113,6 +119,16 @@ def coin(rng, r):
     return rng.randrange(P53)
 
 
+def pred_ok(kind, o):
+    """generator-side copy of Model.acceptable (only used to aim coins)"""
+    base, p = kind % 4, kind // 4
+    if o == 3:
+        return False
+    if base in (0, 2):
+        return o == 0
+    return {0: o in (0, 1), 1: o == 1, 2: True, 3: False}[p]
+
+
 def gen_history(rng):
     sim = Sim()
     now = 3600 * SEC
@@ -129,6 +145,8 @@ def gen_history(rng):
             bad[n] = not bad[n]
         if x < 0.44:
             kind = rng.randrange(4)
+            if kind in (1, 3) and rng.random() < 0.6:
+                kind += 4 * rng.randint(1, 3)      # caller predicate: 1 rejects nil, 2 accepts every error, 3 accepts nothing
             r = sim.ratio(n, now)
             m = coin(rng, r)
             evs.append([0, n, nid, kind, m])
@@ -143,7 +161,7 @@ def gen_history(rng):
             else:
                 o = rng.choice([0, 0, 0, 0, 0, 1, 1, 2, 2, 3])
             evs.append([1, i, o])
-            ok = (o == 0) or (o == 1 and kind in (1, 3))
+            ok = pred_ok(kind, o)
             sim.mark(n, now, 1 if ok else 0)
         elif x < 0.85:
             r = sim.ratio(n, now)
@@ -186,8 +204,17 @@ def pred_cases(rng, tier):
     out += [{"kind": "h", "shape": k, "arg": 0} for k in (1, 2, 4, 5, 6)]
     out += [{"kind": "h", "shape": k, "arg": s} for k in (0, 3)
             for s in sorted(set([200, 404, 499, 500, 503] + [rng.randrange(200, 600) for _ in range(4)]))]
+    # sqlx call sites (7 methods x error classes through the public breaker of a commonConn) and redis call sites
+    sites = range(7) if tier == "thorough" else sorted(rng.sample(range(7), 3))
+    for site in sites:
+        out += [{"kind": "p", "which": 7, "arg": site * 1000 + cl, "site": site, "cl": cl} for cl in (1, 2, 3, 5)]
+    s0 = rng.randrange(7)
+    out += [{"kind": "p", "which": 7, "arg": s0 * 1000 + 100 + cl, "site": s0, "cl": cl, "mysql": True} for cl in (8, 9, 3)]
+    sites = range(7) if tier == "thorough" else sorted(rng.sample(range(7), 3))
+    for site in sites:
+        out += [{"kind": "p", "which": 8, "arg": site * 100 + cl, "site": site, "cl": cl} for cl in (0, 3, 4, 5)]
     # RPC breaker interceptors: every gRPC code returned, and panics (string / error)
-    for which in (5, 6):
+    for which in (5, 6, 9):
         out += [{"kind": "p", "which": which, "arg": c} for c in range(17)]
         out += [{"kind": "p", "which": which, "arg": 100 * p + c} for p in (1, 2) for c in (0, 5)]
     return out
@@ -207,15 +234,70 @@ def reg_cases(rng, tier):
     return out
 
 
+def gen_mixed(rng, side=None):
+    """mixed stream through one RPC breaker interceptor on a frozen clock: phases of call classes
+    (0 live context + status code, 1 expired caller deadline, 2 cancelled caller, 4/5 panic)"""
+    side = rng.randrange(3) if side is None else side
+    calls = []
+    benign_codes = [0, 1, 2, 3, 5, 6, 7, 8, 9, 10, 11, 16]
+    bad_codes = [4, 13, 14, 15, 12]
+
+    def one(style):
+        if style == "canceled":
+            return [2, 0]
+        if style == "deadline":
+            return [1, 0]
+        if style == "benign":
+            return [0, rng.choice(benign_codes)]
+        if style == "bad":
+            return rng.choice([[0, rng.choice(bad_codes)], [1, 0], [4, 0], [5, 0]])
+        return rng.choice([[0, rng.randrange(17)], [1, 0], [2, 0]])
+    shape = rng.random()
+    if shape < 0.3:       # Canceled / benign only, long: never cut off
+        for _ in range(rng.randint(60, 150)):
+            calls.append(one(rng.choice(["canceled", "canceled", "benign"])))
+    elif shape < 0.65:    # few benign, then the caller's deadline keeps expiring: must be cut off
+        for _ in range(rng.randint(0, 6)):
+            calls.append(one(rng.choice(["canceled", "benign"])))
+        for _ in range(rng.randint(90, 160)):
+            calls.append(one("deadline"))
+    elif shape < 0.85:    # few benign, then failures of every kind
+        for _ in range(rng.randint(0, 6)):
+            calls.append(one("benign"))
+        for _ in range(rng.randint(90, 160)):
+            calls.append(one("bad"))
+    else:
+        for _ in range(rng.randint(40, 160)):
+            calls.append(one("any"))
+    return {"kind": "m", "side": side, "calls": calls}
+
+
+def mixed_cases(rng, tier):
+    k = {"quick": 12, "search": 12}.get(tier, 150)
+    return [gen_mixed(rng, i % 3) for i in range(k)]
+
+
 def generate(rng, tier, n):
-    cases = (pred_cases(rng, tier) if tier in ("quick", "thorough") else []) + reg_cases(rng, tier)
+    cases = (pred_cases(rng, tier) if tier in ("quick", "thorough", "search") else []) + reg_cases(rng, tier) + mixed_cases(rng, tier)
     while len(cases) < n:
         cases.append(gen_history(rng))
     return cases
 
 
 PKG = {0: "./rpc/internal/codes", 1: "./lib/store/sqlx", 2: "./lib/store/redis", 3: "./api/handler",
-       5: "./rpc/internal/serverinterceptors", 6: "./rpc/internal/clientinterceptors"}
+       5: "./rpc/internal/serverinterceptors", 6: "./rpc/internal/clientinterceptors",
+       7: "./lib/store/sqlx", 8: "./lib/store/redis", 9: "./rpc/internal/serverinterceptors"}
+
+
+def wire(c):
+    """what the driver reads"""
+    if c["kind"] == "p" and c["which"] in (7, 8):
+        return {"site": c["site"], "arg": c["cl"], "mysql": bool(c.get("mysql"))}
+    if c["kind"] == "p" and c["which"] == 9:
+        return {"arg": c["arg"], "stream": True}
+    if c["kind"] == "m":
+        return {"calls": c["calls"], "stream": c["side"] == 2}
+    return c
 
 
 def drive(cases, tier):
@@ -223,8 +305,12 @@ def drive(cases, tier):
     logs = []
     groups = [("b", None, "./lib/breaker"), ("h", None, "./api/handler")] + [("p", w, PKG[w]) for w in sorted(PKG)]
     groups.append(("r", None, "./lib/breaker"))
+    groups += [("m", 0, "./rpc/internal/clientinterceptors"), ("m", 1, "./rpc/internal/serverinterceptors")]
     for kind, which, pkg in groups:
-        idx = [i for i, c in enumerate(cases) if c["kind"] == kind and (which is None or c["which"] == which)]
+        if kind == "m":
+            idx = [i for i, c in enumerate(cases) if c["kind"] == "m" and (c["side"] == 0) == (which == 0)]
+        else:
+            idx = [i for i, c in enumerate(cases) if c["kind"] == kind and (which is None or c["which"] == which)]
         if not idx:
             continue
         # the sqlx / redis / api-handler packages also hold other properties' drivers: ours is TestVerifDriverC01 there
@@ -232,7 +318,7 @@ def drive(cases, tier):
                                                "./rpc/internal/serverinterceptors", "./rpc/internal/clientinterceptors") else "^TestVerifDriver$"
         if kind == "r":
             run = "^TestVerifDriverReg$"
-        o, lg = run_driver(pkg, [cases[i] for i in idx], name="C01%s%s_%s" % (kind, "" if which is None else which, tier),
+        o, lg = run_driver(pkg, [wire(cases[i]) for i in idx], name="C01%s%s_%s" % (kind, "" if which is None else which, tier),
                            timeout=600, run=run)
         logs.append(lg[-1500:])
         if o is None:
@@ -242,11 +328,24 @@ def drive(cases, tier):
     return obs, "\n".join(logs)
 
 
+PRED = ["PNilOrAcc", "PRejectsNil", "PAll", "PNone"]
+
+
+def ckind(k):
+    base, p = k % 4, k // 4
+    if p == 0 or base in (0, 2):
+        return ["KDo", "KDoWithAcceptable", "KDoWithFallback", "KDoWithFallbackAcceptable"][base]
+    return "(%s %s)" % ("KDoWithAcceptableP" if base == 1 else "KDoWithFallbackAcceptableP", PRED[p])
+
+
 KIND = ["KDo", "KDoWithAcceptable", "KDoWithFallback", "KDoWithFallbackAcceptable"]
 OUT = ["OK", "AcceptableErr", "UnacceptableErr", "Panics"]
 
 
 def encode(case, obs):
+    if case["kind"] == "m":
+        calls = [cpair(cnat(c[0]), cZ(c[1])) for c in case["calls"]]
+        return "MCase %s %s %s" % (cnat(case["side"]), clist(calls), clist([cbool(r == 1) for r in obs.get("rej", [])]))
     if case["kind"] == "r":
         return "RCase %s" % clist([clist([cZ(v) for v in r]) for r in obs.get("rows", [])])
     if case["kind"] == "h":
@@ -258,10 +357,10 @@ def encode(case, obs):
     for e in obs.get("events", []):
         if e[0] == 0:
             calls[e[2]] = (e[1], e[3])
-            evs.append("XBegin %s %s %s %s" % (cnat(e[1]), cnat(e[2]), KIND[e[3]], cZ(e[4])))
+            evs.append("XBegin %s %s %s %s" % (cnat(e[1]), cnat(e[2]), ckind(e[3]), cZ(e[4])))
         elif e[0] == 1:
             n, k = calls[e[1]]
-            evs.append("XEnd %s %s %s %s" % (cnat(n), cnat(e[1]), KIND[k], OUT[e[2]]))
+            evs.append("XEnd %s %s %s %s" % (cnat(n), cnat(e[1]), ckind(k), OUT[e[2]]))
         elif e[0] == 2:
             proms[e[2]] = e[1]
             evs.append("XAllow %s %s %s" % (cnat(e[1]), cnat(e[2]), cZ(e[3])))
@@ -276,6 +375,8 @@ def encode(case, obs):
 
 
 def nontrivial(case, obs):
+    if case["kind"] == "m":
+        return len({c[0] for c in case["calls"]}) >= 2
     if case["kind"] == "r":
         return any(r[6] == 1 for r in obs.get("rows", []))
     if case["kind"] in ("p", "h"):
@@ -285,6 +386,10 @@ def nontrivial(case, obs):
 
 
 def bucket(case, obs):
+    if case["kind"] == "m":
+        out = ["kind:m", "m:side=%d" % case["side"], "m:cutoff=%s" % any(obs.get("rej", []))]
+        out += sorted({"m:class=%d" % c[0] for c in case["calls"]})
+        return out
     if case["kind"] == "r":
         rows = obs.get("rows", [])
         return ["kind:r", "reg:g=%d" % case["g"], "reg:names=%d" % len(rows), "reg:forced=%d" % sum(r[6] for r in rows),
@@ -296,10 +401,18 @@ def bucket(case, obs):
     out = ["kind:b", "names:%d" % len({e[1] for e in case["events"] if e[0] in (0, 2)})]
     for r in obs.get("rows", []):
         out.append("code:%d" % r[0])
+    for e in case["events"]:
+        if e[0] == 0 and e[3] >= 4:
+            out.append("pred:%s" % PRED[e[3] // 4])
     return out
 
 
 def explain(case, obs):
+    if case["kind"] == "m":
+        return ("mixed stream through one RPC breaker interceptor (side 0 client, 1 server unary, 2 server stream) on a frozen "
+                "clock: a call was cut off although 2(total-5) <= 3*successes with Canceled and the other benign codes counted "
+                "as successes, or at least 40 calls started with a drop ratio >= 1/2 (DeadlineExceeded of an expired caller "
+                "deadline, the other four codes, panics counted as failures) and none was ever cut off (c01_ctx_outcomes)")
     if case["kind"] == "r":
         return ("concurrent FIRST use of a fresh breaker name by several goroutines (all held at Get's RLock, then released) "
                 "did not yield one breaker per name: handles differ, outcomes recorded by Do(name) are missing from the "
